@@ -471,7 +471,18 @@ def run(ctx):
     first_problem = None
     first_diff = None
     skipped = {}
-    for ops in seqs:
+    # the model is run on all sequences in a few driver processes (`opts` starts a fresh store): one process per
+    # sequence costs ~0.2 s each on a loaded machine
+    models = {}
+    if drv is not None:
+        for a in range(0, len(seqs), 2000):
+            chunk = seqs[a:a + 2000]
+            flat = drv.run([o for ops in chunk for o in ops])
+            k = 0
+            for j, ops in enumerate(chunk):
+                models[a + j] = flat[k:k + len(ops)]
+                k += len(ops)
+    for si, ops in enumerate(seqs):
         outs, problems, skip = oracle(ops)
         ctx.case(" ".join(ops), nontrivial=len(ops) >= 8)
         ctx.count("opts " + ops[0][5:])
@@ -482,7 +493,7 @@ def run(ctx):
         if problems and first_problem is None:
             first_problem = (ops, problems)
         if drv is not None:
-            model = drv.run(ops)
+            model = models[si]
             m2 = [canon_dump(x) if ops[i] == "dump" else x for i, x in enumerate(model)]
             o2 = [canon_dump(x) if ops[i] == "dump" else x for i, x in enumerate(outs)]
             if m2 != o2 and first_diff is None:
